@@ -246,6 +246,31 @@ def _q_set_index(env, col="c", npartitions=None, nparts=4, drop=True):
     return env.A(nparts).set_index(col, npartitions=npartitions, drop=drop, shuffle_method="tasks")
 
 
+def _q_set_index_userdiv(env, col="c", nparts=4, warm=True):
+    """set_index with the user's own divisions AFTER the same session planned the automatic (quantile) partitioning of
+    the same frame and column with the same partition count: the lowered plan must carry the user's divisions with
+    it, not look them up in the process-wide divisions cache"""
+    A = env.A(nparts)
+    if warm:
+        auto = A.set_index(col, shuffle_method="tasks")
+        auto.optimize()
+        k = auto.npartitions
+    else:
+        k = nparts
+    vals = sorted(table_A()[col].tolist())
+    lo, hi = vals[0], vals[-1]
+    cuts = [lo + (hi - lo) * i / k for i in range(k + 1)]
+    cuts = [type(lo)(round(c)) if isinstance(lo, int) else float(c) for c in cuts]
+    cuts[0], cuts[-1] = lo, hi
+    return A.set_index(col, divisions=sorted(set(cuts)) if len(set(cuts)) == len(cuts) else [lo, hi], shuffle_method="tasks")
+
+
+def _q_isin_strings(env, values=("w1", "w4", "zz", "w1", "w0"), nparts=3):
+    """a list of strings as operand (its order must not come from a set: D98)"""
+    A = env.A(nparts)
+    return A[A.s.isin(list(values))][["a", "s"]]
+
+
 def _q_set_index_b(env, col="b", nparts=5):
     return env.A(nparts).set_index(col, shuffle_method="tasks")
 
@@ -355,6 +380,21 @@ def _q_pq_index(env, fs="fsspec", calc=True):
     import dask_expr as dx
 
     return dx.read_parquet(env.pq, filesystem=fs, calculate_divisions=calc, index="idx")[["a"]]
+
+
+def _q_pq_opts(env, index=None, calc=True, split=None, backend=None, cols=None):
+    """reader options over the SAME files: whatever is planned for one combination must not serve another"""
+    import dask_expr as dx
+
+    kw = {}
+    if index is not None:
+        kw["index"] = index
+    if split is not None:
+        kw["split_row_groups"] = split
+    if backend is not None:
+        kw["dtype_backend"] = backend
+    r = dx.read_parquet(env.pq, calculate_divisions=calc, **kw)
+    return r[list(cols)] if cols else r
 
 
 def _q_from_pandas_u(env, npartitions=3, sort=True):
@@ -483,6 +523,8 @@ POOL = {
     "sort": (_q_sort, {}, [("by", "a"), ("ascending", False), ("npartitions", 3), ("nparts", 3)], {"tags": ["sort"]}),
     "sort_s": (_q_sort_s, {}, [("by", "b"), ("nparts", 4)], {"tags": ["sort"], "sort_rows": True}),
     "set_index": (_q_set_index, {}, [("col", "a"), ("npartitions", 2), ("nparts", 3), ("drop", False)], {"tags": ["sort", "set_index"], "sort_rows": True}),
+    "set_index_userdiv": (_q_set_index_userdiv, {}, [("col", "a"), ("nparts", 3)], {"tags": ["sort", "set_index"], "sort_rows": True}),
+    "isin_strings": (_q_isin_strings, {}, [("values", ("w2", "w3", "w5", "q")), ("nparts", 2)], {}),
     "set_index_b": (_q_set_index_b, {}, [("col", "s"), ("nparts", 4)], {"tags": ["sort", "set_index"], "sort_rows": True}),
     "set_index_then": (_q_set_index_then, {}, [("col", "b"), ("k", 2), ("nparts", 3)], {"tags": ["sort", "set_index"], "sort_rows": True}),
     "set_index_nosort": (_q_set_index_nosort, {}, [("col", "a"), ("nparts", 3)], {"sort_rows": True}),
@@ -508,6 +550,11 @@ POOL = {
     "pq_none_b": (_q_pq_none, {"cols": ("b",)}, [], {"tags": ["parquet", "pq_none"]}),
     "pq_len": (_q_pq_len, {}, [("fs", "arrow")], {"tags": ["parquet"]}),
     "pq_index": (_q_pq_index, {}, [("calc", False)], {"tags": ["parquet"]}),
+    "pq_opts_default": (_q_pq_opts, {}, [("calc", False)], {"tags": ["parquet"]}),
+    "pq_opts_index_a": (_q_pq_opts, {"index": "a"}, [("calc", False)], {"tags": ["parquet"]}),
+    "pq_opts_noindex": (_q_pq_opts, {"index": False}, [("cols", ("a", "idx"))], {"tags": ["parquet"]}),
+    "pq_opts_split": (_q_pq_opts, {"split": True}, [("calc", False)], {"tags": ["parquet"]}),
+    "pq_opts_backend": (_q_pq_opts, {"backend": "pyarrow"}, [("calc", False)], {"tags": ["parquet"]}),
     "from_pandas_u": (_q_from_pandas_u, {}, [("npartitions", 2), ("sort", False)], {}),
     "from_pandas_u2": (_q_from_pandas_u2, {}, [("npartitions", 3), ("sort", True)], {}),
     "flaky": (_q_flaky, {}, [("tag", "t9"), ("nparts", 2)], {"tags": ["flaky"], "fail_tag": "t1"}),
